@@ -3,6 +3,7 @@ CONSTANTS LoopDelayOwnFreeVars = TRUE
           LoopDurationMapped = TRUE
           ParamValuesReachDelays = TRUE
           ChecksBeforeSave = TRUE AliasesReachDurations = FALSE
+          DelayInputsForbidden = TRUE ExpandKeepsElements = TRUE
           Family = "cex"
 INIT Init
 NEXT Next
